@@ -258,7 +258,7 @@ void body(V::Ctx &ctx)
     if (!ctx.quick())
         for (const char *t : TOKENS_T) alpha.push_back(t);
     const int L = ctx.quick() ? 4 : 5;
-    const size_t allSegMax = ctx.quick() ? 7 : 9;
+    const size_t allSegMax = ctx.quick() ? 8 : 10;
     // limits below 34 (32-byte method + 2 delimiters) would make the "whom to blame" step of the limit path look at
     // a truncated method field; real configurations are far above that
     const Config1 configs[] = {{1, 64}, {0, 64}, {1, 36}, {0, 36}};
